@@ -8,6 +8,7 @@
   (`Qb_sound`, `Vb_sound`), so the oracle the correspondence runs is the function the theorems speak about.
 -/
 import Flounder.Spec.Minimax
+import Flounder.Spec.MinimaxDraw
 
 namespace Flounder.Spec
 open Flounder Gen
@@ -52,5 +53,25 @@ def Vb (qfuel : Nat) : Nat → P → Nat → Option Int × Nat
             match Vb qfuel d (G.play p mv) b with
             | (some v, b') => (some (max a (-v)), b')
             | (none, b') => (none, b')) (some (-v0), b)
+
+/-- `Vd` (minimax with a fixed draw predicate, Spec/MinimaxDraw.lean) with a node budget. -/
+def Vdb (drawn : P → Bool) (qfuel : Nat) : Nat → Bool → P → Nat → Option Int × Nat
+  | 0, root, p, b => if !root && drawn p then (some 0, b) else Qb G qfuel p b
+  | d + 1, root, p, b =>
+    if !root && drawn p then (some 0, b)
+    else
+      match G.moves p with
+      | [] => (if G.inCheck p then some (-CHECKMATE_SCORE + ((d + 1 : Nat) : Int)) else some 0, b)
+      | m :: ms =>
+        match Vdb drawn qfuel d false (G.play p m) b with
+        | (none, b) => (none, b)
+        | (some v0, b) =>
+          ms.foldl (fun (acc : Option Int × Nat) mv =>
+            match acc with
+            | (none, b) => (none, b)
+            | (some a, b) =>
+              match Vdb drawn qfuel d false (G.play p mv) b with
+              | (some v, b') => (some (max a (-v)), b')
+              | (none, b') => (none, b')) (some (-v0), b)
 
 end Flounder.Spec
